@@ -302,7 +302,9 @@ def evalToken (v : Bytes) : Option Bytes :=
     let n := cAtoi 64 v          -- `atoll` / `%lld` (64 bits, as in the Value constructor)
     if n != 0 && intDecimal n == v then some (pushInt64 n)
     else
-      match (if v.length % 2 == 0 then tryHex v else none) with
+      -- hex, with or without the `0x` prefix (instance.cpp: `if (hexlen > 2 && hex[0]=='0' && hex[1]=='x') { hex += 2; … }`)
+      let h := if v.length > 2 && v.getD 0 0 == 48 && v.getD 1 0 == 120 then v.drop 2 else v
+      match (if h.length % 2 == 0 then tryHex h else none) with
       | some d => some (pushData d)
       | none =>
         match parseOpCode v with            -- `if (ParseOpCode(v, opc)) { script << opc; continue; }` (instance.cpp:336)
